@@ -5,4 +5,6 @@
 EXTENDS Install
 MCRunNames1 == {"a"}
 MCRunNames2 == {"a", "b"}
+\* start states: a fresh directory, and one in which run9, run10, run11 exist (one-digit next to two-digit numbers)
+MCPriors == {{}, {9, 10, 11}}
 =============================================================================
